@@ -142,6 +142,7 @@ def payload_values():
         ("dates", {"d": dt.date(2024, 2, 29), "t": dt.datetime(2024, 2, 29, 12, 30, 15, 123456), "td": dt.timedelta(days=3, microseconds=7)}),
         ("pydantic-rich-nested", [{"r": Rich(uid=uuid.UUID(int=7), amount=decimal.Decimal("1.50"), colour=Colour.RED, members={3},
                                              when=dt.datetime(2020, 1, 2, 3, 4, 5), wait=dt.timedelta(seconds=90))}]),
+        ("lone-surrogate", {"file": "r\udce9sum\udce9.txt", "half": "\ud83d"}),     # os.fsdecode of a non-UTF-8 name; half a pair
         ("key-like-string", "__repid_payload_id "),
         ("key-like-list", ["__repid_payload_id"]),
     ]
@@ -212,6 +213,16 @@ def h07_e2e(S, backend="mem"):
         if got is not None:
             out["payload"] = await _Processor(conn).get_payload(got[1])
         out["serialized"] = None if value is None else Config.SERIALIZER(value)
+        out["again"] = None
+        if got is not None and not delayed and not bucket and S.flag("then_requeued_with_another_payload"):
+            # the holder puts the message back with a changed payload (Message.raw_payload = ...; reschedule()/retry()):
+            # the next consumer receives that payload
+            await mb.requeue(got[0], "CHANGED:" + got[1], got[2])
+            if backend == "redis":
+                again = await cons.consume_or_none()
+            else:
+                again = await try_consume(cons, timeout=1)
+            out["again"] = ("CHANGED:" + got[1], again)
 
     run_async(main, clock=clock)
     sent, got = out["sent"], out["got"]
@@ -223,6 +234,11 @@ def h07_e2e(S, backend="mem"):
     S.check("payload-as-enqueued", out["payload"] == sent[1], info=f"{out['payload']!r} vs {sent[1]!r}")
     S.check("payload-is-the-serialised-arguments", out["payload"] == (out["serialized"] or ""))
     same(S, "parameters", sent[2], got[2])
+    if out["again"] is not None:
+        want, again = out["again"]
+        S.cover("requeued-with-another-payload")
+        S.check("requeued-payload-is-what-the-next-consumer-receives", again is not None and again[1] == want,
+                info=f"{backend}: requeued {want!r}, next consumer received {None if again is None else again[1]!r}")
 
 
 def h07_waiting_consumer(S):
@@ -303,7 +319,7 @@ HARNESSES = [
                     covers=["constructed", "foreign-payload"],
                     stubs=["construct() runs the real JSON encoder on a placeholder id which is then replaced by the symbolic id"]),
     Harness(name="H07-e2e-mem", scenario=_e2e("mem"), workers=16, budget_s=900,
-            bounds={"argument values": "9 concrete representatives (nested JSON, dataclass, pydantic models, dates/durations, marker-like strings)",
+            bounds={"argument values": "10 concrete representatives (nested JSON, dataclass, pydantic models, dates/durations, lone surrogates, marker-like strings)",
                     "job settings": "priority in {LOW, MEDIUM, HIGH}; timeout/ttl/deferred_by/result_ttl any µs in [1 s, 100 y]; deferred_until any future µs; retries any int; every optional setting on/off; inline or bucket transport"},
             functions=["job.py:Job.enqueue", "_processor.py:_Processor.get_payload"], covers=["received"]),
     Harness(name="H07-waiting-consumer", scenario=h07_waiting_consumer, workers=4,
